@@ -213,7 +213,7 @@ func (h ctxHook) Run(e *zerolog.Event, l zerolog.Level, msg string) {
 
 // Step derives a logger from a logger.
 type Step struct {
-	Op     string  // With | Hook | HookNone | HookDiscard | HookCtx | Timestamp | Caller | Ctx | Level | Output | Sample | UpdateContext | Stack | Reset | WithEmpty
+	Op     string  // With | Hook | HookNone | HookDiscard | HookCtx | HookLevel | Timestamp | Caller | Ctx | Level | Output | Sample | UpdateContext | Stack | Reset | WithEmpty
 	Fields []Field // With / UpdateContext
 	Hooks  []int   // Hook
 	Level  zerolog.Level
@@ -286,20 +286,28 @@ func (h chainHook) Run(e *zerolog.Event, l zerolog.Level, msg string) {
 
 // MatchHookCalls compares the invocation log with the expected one ("*" level = any).
 func MatchHookCalls(got, want []string) bool {
-	if len(got) != len(want) {
-		return false
+	one := func(g, w string) bool {
+		if g == w {
+			return true
+		}
+		gp := strings.SplitN(g, ":", 3)
+		wp := strings.SplitN(w, ":", 3)
+		return len(gp) == 3 && len(wp) == 3 && gp[0] == wp[0] && gp[2] == wp[2] && wp[1] == "*"
 	}
-	for i := range got {
-		if got[i] == want[i] {
+	i := 0
+	for _, w := range want {
+		if strings.HasPrefix(w, "?") { // an optional call
+			if i < len(got) && one(got[i], w[1:]) {
+				i++
+			}
 			continue
 		}
-		g := strings.SplitN(got[i], ":", 3)
-		w := strings.SplitN(want[i], ":", 3)
-		if len(g) != 3 || len(w) != 3 || g[0] != w[0] || g[2] != w[2] || w[1] != "*" {
+		if i >= len(got) || !one(got[i], w) {
 			return false
 		}
+		i++
 	}
-	return true
+	return i == len(got)
 }
 
 // Clone copies the model state.
@@ -369,6 +377,11 @@ func ApplyStep(w *World, lg zerolog.Logger, m RefLogger, s Step) (zerolog.Logger
 	case "HookChain":
 		lg = lg.Hook(chainHook{s.Fields})
 		m.Hooks = append(m.Hooks, RefHook{Kind: "chain", Fields: s.Fields})
+	case "HookLevel":
+		// the library's own per-level dispatcher: one distinguishable hook per named level and one for NoLevel
+		lg = lg.Hook(zerolog.LevelHook{TraceHook: addHook{60, w.Log}, DebugHook: addHook{61, w.Log}, InfoHook: addHook{62, w.Log}, WarnHook: addHook{63, w.Log},
+			ErrorHook: addHook{64, w.Log}, FatalHook: addHook{65, w.Log}, PanicHook: addHook{66, w.Log}, NoLevelHook: addHook{67, w.Log}})
+		m.Hooks = append(m.Hooks, RefHook{Kind: "level"})
 	case "HookNone":
 		lg = lg.Hook()
 	case "HookDiscard":
@@ -574,6 +587,20 @@ func ExpectEvent(m RefLogger, en Entry, fs []Field, fi Final) Expected {
 				l = "*"
 			}
 			ex.HookCalls = append(ex.HookCalls, fmt.Sprintf("%d:%s:%s", h.ID, l, msg))
+		}
+		if h.Kind == "level" {
+			// LevelHook runs the hook configured for the level it is handed - trace..panic and NoLevel have one, every
+			// other level (Disabled, custom levels) has none. After a discarding hook it may be handed the original level
+			// or Disabled: the call is optional then ("?").
+			if lvl >= zerolog.TraceLevel && lvl <= zerolog.NoLevel {
+				id := 61 + int(lvl)
+				if discarded {
+					ex.HookCalls = append(ex.HookCalls, fmt.Sprintf("?%d:*:%s", id, msg))
+				} else {
+					ex.HookCalls = append(ex.HookCalls, fmt.Sprintf("%d:%d:%s", id, int(lvl), msg))
+					ex.Fields = append(ex.Fields, KV{Key: fmt.Sprintf("h%d", id), Exp: S(fmt.Sprintf("%d|%s", lvl, msg))})
+				}
+			}
 		}
 		switch h.Kind {
 		case "add":
